@@ -196,6 +196,29 @@ pub fn jobs(tier: Tier) -> Vec<Job> {
             }
         }
     }
+    // deferred -> immediate switch inside one block: a nonce-too-low transaction stops the ordered
+    // commit, the prefix's rewards were deferred and folded at commit, the suffix is replayed
+    // sequentially with immediate rewards; readers and role actions on both sides of the switch
+    for role in ROLES {
+        for f in [Fee::Legacy10, Fee::Tip3] {
+            let spec = SpecId::CANCUN;
+            let db = world(role);
+            let mut templates = templates(role, f);
+            templates.push(tpl("stale-pay(e2>e3)", eoa(2), &["coinbase"], move |n| fee(transfer(eoa(2), n, eoa(3), 1), f)).skew(-1));
+            let stale = templates.len() - 1;
+            let pay = 0usize;
+            let n_other = stale;
+            for r in 1..n_other {
+                for seq in [vec![pay, stale, r], vec![pay, r, stale, r], vec![r, pay, stale, pay]] {
+                    // (the same sender twice gets consecutive nonces from build_case)
+                    let name = format!("c07p:{role:?}:{f:?}");
+                    let Some(mut case) = build_case(&name, spec, &db, &templates, &seq) else { continue };
+                    case.env.beneficiary = beneficiary_of(role);
+                    v.push(pipeline_job("c07-replayed", &case, &RunCfg::parallel(2), COARSE, if tier == Tier::Quick { 1 } else { 2 }, false));
+                }
+            }
+        }
+    }
     // concurrent record / invalidate / resolve on the shared history: reader drivers, deeper and
     // with the commit-event oracle (the beneficiary value after *every* transaction)
     for role in [Role::Absent, Role::Sender, Role::ContractWithStorage, Role::NearOverflow] {
